@@ -52,6 +52,7 @@ def c06_case(draw, max_tasks=8):
                 t['start'] = iso(hi + (hi - dt(t['start'])))
         c['N'] = iso(n1)
         c['N2'] = iso(n2)
+        c['start_default'] = False        # an explicit project start: the clock pair must not move it
     return c
 
 
